@@ -29,7 +29,7 @@ from numpy import pi
 
 from diffpy.structure import Structure
 from diffpy.structure.parsers import StructureParser
-from diffpy.structure.structureerrors import StructureFormatError
+from diffpy.structure.structureerrors import LatticeError, StructureFormatError
 
 
 class P_pdb(StructureParser):
@@ -134,6 +134,8 @@ class P_pdb(StructureParser):
             stru = Structure()
             scale = numpy.identity(3, dtype=float)
             scaleU = numpy.zeros(3, dtype=float)
+            sc = numpy.zeros((3, 3), dtype=float)
+            last_atom = None
             p_nl = 0
             for line in lines:
                 p_nl += 1
@@ -202,6 +204,9 @@ class P_pdb(StructureParser):
                     last_atom = stru.getLastAtom()
                     last_atom.xyz_cartn = rc
                     last_atom.Uisoequiv = uiso
+                elif record in ("SIGATM", "ANISOU", "SIGUIJ") and last_atom is None:
+                    emsg = "%d: %s record must follow ATOM or HETATM" % (p_nl, record)
+                    raise StructureFormatError(emsg)
                 elif record == "SIGATM":
                     sigrc = [float(x) for x in line[30:54].split()]
                     sigxyz = numpy.dot(scale, sigrc)
@@ -238,7 +243,7 @@ class P_pdb(StructureParser):
                 else:
                     emsg = "%d: invalid record name '%r'" % (p_nl, record)
                     raise StructureFormatError(emsg)
-        except (ValueError, IndexError):
+        except (ValueError, IndexError, ZeroDivisionError, LatticeError):
             emsg = "%d: invalid PDB record" % p_nl
             exc_type, exc_value, exc_traceback = sys.exc_info()
             e = StructureFormatError(emsg)
